@@ -1,13 +1,114 @@
 (** C09 — reaction normal forms preserve the reaction; equivalence checks are exact.
-    Statements only; every proof is [exact <lemma of proof/C09_*.v>].  (under construction) *)
-From Coq Require Import List NArith ZArith Bool.
-From SK Require Import lib.LGraph model.C01_Model model.C09_Model.
+    Statements only; every proof is [exact <lemma of proof/C09_*.v>].
+
+    Vocabulary (model/C01_Model.v, model/C09_Model.v, proof/C09_Canon.v, proof/C09_Valid.v, proof/C09_Main.v):
+      [parsed G]            = wf G (distinct ids, simple edges between present atoms) /\ amap_id G (atom_map = node id)
+                              /\ pos_ids G (ids <> 0): what rsmi_to_graph(expand_aam(r)) returns (RDKit: monitored)
+      [enumerates order G]  = NoDup order /\ forall n, In n order <-> In n (node_ids G): the canonical order of the
+                              back-end lists every reactant atom once (C08: proved for wl with ANY colour ranking and
+                              for the nauty search)
+      [sigma_of order]      = old id -> 1-based position in [order] (GraphCanonicaliser's mapping)
+      [relabelled_by s G X] = Permutation (gnodes X) (gnodes (relabel s G)) /\ gedges X = gedges (relabel s G)
+                              (X is G with ids renamed by s, all attributes kept, nodes possibly inserted in another order)
+      [canonicalise_with Gc H] = CanonRSMI.canonicalise after the canonical reactant graph Gc is known:
+                              get_aam_pairwise_indices, partner-less product atoms numbered after the reactant atoms
+                              (repair 8092e28), remap_graph (nx.relabel_nodes), sync_atom_map_with_index ([set_amap])
+      [its_emb g1 g2 f]     = f maps the atoms of g2 injectively to atoms of g1 with equal typesGH (both halves:
+                              element, aromatic, hcount, charge, neighbors), bonds to bonds with equal order pair,
+                              non-bonds to non-bonds
+      [its_isomorphic g1 g2]= equally many atoms and bonds /\ exists f, its_emb g1 g2 f
+      [smiles_check_its / smiles_check_rc] = AAMValidator.smiles_check (ITS / RC) on the parsed graph pairs. *)
+From Coq Require Import List NArith ZArith Bool Permutation.
+From SK Require Import lib.LGraph model.C01_Model model.C02_Model model.C09_Model
+  proof.C09_Canon proof.C09_Valid proof.C09_Balance proof.C09_Main.
 Import ListNotations.
 
-Theorem C09_balance_self : forall G : mgraph, balancedb G G = true.
-Proof.
-  intros G. unfold balancedb. apply andb_true_intro. split.
-  - apply forallb_forall. intros e _. apply Z.eqb_refl.
-  - apply Z.eqb_refl.
-Qed.
-Print Assumptions C09_balance_self.
+(** 1. Canonicalising = relabelling both sides by ONE injective map f (canonical position on the reactant atoms, fresh
+       numbers after them on product atoms without partner): the canonical reactant graph is G renamed by f, the
+       canonical product graph is H renamed by f, mapping_pairs are exactly the shared atoms, the ITS of the canonical
+       reaction is isomorphic to the ITS of the input (atom-map-equivalent) and the validator accepts the pair.
+       For every canonical order that enumerates the reactant atoms; balanced or not. *)
+Theorem C09_canon_is_relabelling : forall (G H Gc : mgraph) (order : list N),
+  parsed G -> parsed H -> enumerates order G -> relabelled_by (sigma_of order) G Gc ->
+  (exists s, In s (node_ids G) /\ In s (node_ids H)) ->
+  exists (f : N -> N) (pairs : list (N * N)) (Hc : mgraph),
+    (forall a b, f a = f b -> a = b) /\
+    (forall n, In n (node_ids G) -> f n = sigma_of order n) /\
+    canonicalise_with Gc H = Some (set_amap Gc, pairs, set_amap Hc) /\
+    relabelled_by f G Gc /\ Hc = relabel f H /\
+    (forall a b, In (a, b) pairs <-> In b (node_ids G) /\ In b (node_ids H) /\ a = f b) /\
+    its_isomorphic (its_construct (set_amap Gc) (set_amap Hc)) (its_construct G H) /\
+    smiles_check_its (set_amap Gc) (set_amap Hc) G H = true.
+Proof. exact canon_is_relabelling. Qed.
+Print Assumptions C09_canon_is_relabelling.
+
+(** the two back-ends the correspondence runs ([run_canon_wl] / [run_canon_nauty]).  wl: whatever colour ranking the
+    WL oracle returns; canonical reactant ids are exactly 1..N. *)
+Theorem C09_canon_wl_is_relabelling : forall (ranks : list (N * Z)) (G H : mgraph),
+  parsed G -> parsed H -> (exists s, In s (node_ids G) /\ In s (node_ids H)) ->
+  exists (f : N -> N) (Gc Hc : mgraph) (pairs : list (N * N)),
+    (forall a b, f a = f b -> a = b) /\
+    canonicalise_wl ranks G H = Some (set_amap Gc, pairs, set_amap Hc) /\
+    relabelled_by f G Gc /\ Hc = relabel f H /\
+    Permutation (node_ids Gc) (map N.of_nat (seq 1 (length (gnodes G)))) /\
+    its_isomorphic (its_construct (set_amap Gc) (set_amap Hc)) (its_construct G H).
+Proof. exact canon_wl_is_relabelling. Qed.
+Print Assumptions C09_canon_wl_is_relabelling.
+
+Theorem C09_canon_nauty_is_relabelling : forall G H : mgraph,
+  parsed G -> parsed H -> (exists s, In s (node_ids G) /\ In s (node_ids H)) ->
+  exists (f : N -> N) (Hc : mgraph) (pairs : list (N * N)),
+    (forall a b, f a = f b -> a = b) /\
+    canonicalise_nauty G H = Some (set_amap (relabel f G), pairs, set_amap Hc) /\ Hc = relabel f H /\
+    its_isomorphic (its_construct (set_amap (relabel f G)) (set_amap Hc)) (its_construct G H).
+Proof. exact canon_nauty_is_relabelling. Qed.
+Print Assumptions C09_canon_nauty_is_relabelling.
+
+(** 1'. The step added by repair 8092e28 is necessary: remap_graph with the shared pairs only (the code before the
+       repair) can send two product atoms to the same id (witness: the regress case collision#wl). *)
+Theorem C09_unbalanced_collision_refuted :
+  exists (Gc H : mgraph), NoDup (node_ids H) /\ amap_id H /\
+    match remap_graph H (aam_pairs Gc H) with
+    | Some Hc => (length (gnodes Hc) < length (gnodes H))%nat
+    | None => False
+    end.
+Proof. exact unbalanced_collision_refuted. Qed.
+Print Assumptions C09_unbalanced_collision_refuted.
+
+(** 3. The validator is exact: the matcher the correspondence runs answers true iff the two ITS graphs (resp. the two
+       reaction centres) are isomorphic on typesGH + order. *)
+Theorem C09_validator_exact : forall G1 H1 G2 H2 : mgraph, wf G2 -> wf H2 ->
+  (smiles_check_its G1 H1 G2 H2 = true <-> its_isomorphic (its_construct G1 H1) (its_construct G2 H2)) /\
+  (smiles_check_rc G1 H1 G2 H2 = true <->
+     its_isomorphic (get_rc (its_construct G1 H1)) (get_rc (its_construct G2 H2))).
+Proof. exact validator_exact. Qed.
+Print Assumptions C09_validator_exact.
+
+(** every renumbering of a mapping is accepted (third clause: also with re-ordered atoms and rewritten atom_map
+    attributes, as the parser of the renumbered string delivers them; ITS method) *)
+Theorem C09_validator_renumbering : forall (f : N -> N) (G H : mgraph),
+  (forall a b, f a = f b -> a = b) -> wf G -> wf H ->
+  smiles_check_its (relabel f G) (relabel f H) G H = true /\
+  smiles_check_rc (relabel f G) (relabel f H) G H = true /\
+  (forall G' H', relabelled_by f G G' -> relabelled_by f H H' -> smiles_check_its (set_amap G') (set_amap H') G H = true).
+Proof. exact validator_renumbering. Qed.
+Print Assumptions C09_validator_renumbering.
+
+(** a mapping in which the product-side numbers of two atoms x, y are transposed is rejected whenever it is not
+    equivalent to the reference, i.e. whenever x and y are not interchangeable: no isomorphism between the swapped
+    and the reference ITS (resp. centre).  (By C09_validator_exact this is an equivalence: the swap is accepted iff
+    the transposition factors through automorphisms of the two sides.) *)
+Theorem C09_validator_rejects_swap : forall (x y : N) (G H : mgraph), wf G -> wf H ->
+  (~ its_isomorphic (its_construct G (relabel (transp x y) H)) (its_construct G H) ->
+   smiles_check_its G (relabel (transp x y) H) G H = false) /\
+  (~ its_isomorphic (get_rc (its_construct G (relabel (transp x y) H))) (get_rc (its_construct G H)) ->
+   smiles_check_rc G (relabel (transp x y) H) G H = false).
+Proof. exact validator_rejects_swap. Qed.
+Print Assumptions C09_validator_rejects_swap.
+
+(** 4. Balance, graph level: true exactly when every element count (implicit hydrogens counted as H atoms) and the
+       total charge agree.  (BalanceReactionCheck compares RDKit's CalcMolFormula strings: oracle, monitored.) *)
+Theorem C09_balance_iff : forall G H : mgraph,
+  balancedb G H = true <-> (forall e, el_count e G = el_count e H) /\ total_charge G = total_charge H.
+Proof. exact balance_iff. Qed.
+Print Assumptions C09_balance_iff.
